@@ -62,6 +62,9 @@ func StoreErrClass(err error) string {
 	if strings.Contains(err.Error(), "incompatible link type") {
 		return "ebadlink"
 	}
+	if strings.Contains(err.Error(), "WriteCommitter already used") {
+		return "eused"
+	}
 	if strings.Contains(err.Error(), "empty key") {
 		return "eemptykey"
 	}
@@ -240,6 +243,12 @@ func RealCid(version, codec, mhType uint64, content string) string {
 		panic(err)
 	}
 	return c.KeyString()
+}
+
+// SyntheticCid: a structurally valid CIDv1 with the given multihash function code over the given digest
+// bytes (not the hash of anything: for pairs of links that share digest bytes but not the hash function).
+func SyntheticCid(codec, mhCode uint64, digest string) string {
+	return "\x01" + varint(codec) + varint(mhCode) + varint(uint64(len(digest))) + digest
 }
 
 // HostileKeys: the byte strings the property text names, and the witnesses of the findings.
